@@ -354,7 +354,16 @@ func xyzToFaceSiTi(p Point) (face int, si, ti uint32, level int) {
 	// not idempotent. On the other hand, the center is computed exactly the same
 	// way p was originally computed (if it is indeed the center of a Cell);
 	// the comparison can be exact.
-	if p.Vector == faceSiTiToXYZ(face, si, ti).Normalize() {
+	//
+	// The comparison is on the bit patterns rather than with ==, so that a
+	// point differing from the cell center in the sign of a zero coordinate
+	// (e.g. (0, 0, 1) versus the face center (-0, -0, 1)) is not reported as
+	// the center: the compressed encodings reproduce centers from (face, si,
+	// ti) alone and would otherwise change those signs.
+	c := faceSiTiToXYZ(face, si, ti).Normalize()
+	if math.Float64bits(p.X) == math.Float64bits(c.X) &&
+		math.Float64bits(p.Y) == math.Float64bits(c.Y) &&
+		math.Float64bits(p.Z) == math.Float64bits(c.Z) {
 		return face, si, ti, level
 	}
 
